@@ -9,6 +9,7 @@ evaluated are the terms the extractor read off the MIR, with local callees expan
 their own summaries (bounded depth) and a fixed table of pure std models.
 """
 from flow import enum_paths, TRY_BRANCH, FROM_RESIDUAL_PREFIX, STD_VARIANTS, PathLimit
+from mir import walk
 
 INT_BITS = {"u8": 8, "u16": 16, "u32": 32, "u64": 64, "usize": 64, "u128": 128,
             "i8": 8, "i16": 16, "i32": 32, "i64": 64, "isize": 64, "i128": 128}
@@ -126,6 +127,7 @@ class Evaluator:
                 ok = False
             if ok:
                 if p.end == "ret":
+                    self._effect_guard(body, p)
                     return self.ev(p.ret, local, body, depth)
                 if p.end == "diverge":
                     raise Panic("diverging call in %s" % body.name)
@@ -133,6 +135,33 @@ class Evaluator:
                     raise Unknown("loop in " + body.name)
                 raise Unknown("path ends with %s in %s" % (p.end, body.name))
         raise Unknown("no path of %s matches" % body.name)
+
+    def _effect_guard(self, body, p):
+        """The evaluator is pure: a returned value that mentions an object which the path also hands out as
+        `&mut` (retain, sort, push, ...) or stores into cannot be read off its defining term."""
+        mutated = []
+        for e in p.events:
+            if e["k"] == "call":
+                for a in e["args"]:
+                    if a[0] == "ref" and a[2] and a[1][0] not in ("param", "const"):
+                        mutated.append((a[1], e.get("callee")))
+            elif e["k"] == "write":
+                r = e["place"]
+                while r[0] in ("deref", "index", "field", "downcast", "ref"):
+                    r = r[1]
+                if r[0] == "call":
+                    mutated.append((r, "a store"))
+        if not mutated:
+            return
+        inside = set()
+        for x in walk(p.ret):
+            inside.add(x)
+        for t, who in mutated:
+            # iterators advanced by next() are consumed, not observed
+            if who and who.endswith("::next"):
+                continue
+            if t in inside:
+                raise Unknown("%s returns a value that was changed in place by %s (not modelled)" % (body.name, (who or "?").rsplit("::", 1)[-1]))
 
     def _path_holds(self, body, p, env, depth):
         # interleave asserts (events carry bb) and conditions (carry bb) by path block order
@@ -674,7 +703,66 @@ def _wrapping_op(op, ty):
     return f
 
 
+def _fn_call(ev, args, depth):
+    """Fn::call(&f, (a, b, ..)) on a closure built in the caller (a generic helper taking `impl Fn`)"""
+    tup = deref(args[1])
+    if not isinstance(tup, tuple):
+        raise Unknown("closure call with opaque arguments")
+    f = deref(args[0])
+    if isinstance(f, Closure):
+        return ev.call_closure(f, list(tup), depth)
+    raise Unknown("call of a non-closure %r" % (f,))
+
+
+def _it_filter_map(ev, args, depth):
+    it = deref(args[0])
+    if not isinstance(it, Iter):
+        raise Unknown("filter_map over %r" % (it,))
+    out = []
+    for x in it.items:
+        r = deref(ev.call_closure(args[1], [x], depth))
+        if isinstance(r, Adt) and r.variant == "Some":
+            out.append(r.fields[0])
+        elif isinstance(r, Adt) and r.variant == "None":
+            continue
+        else:
+            raise Unknown("filter_map closure returned %r" % (r,))
+    return Iter(out)
+
+
+def _opt_map(ev, args, depth):
+    o = deref(args[0])
+    if isinstance(o, Adt) and o.variant == "Some":
+        return Adt(o.ty, "Some", (ev.call_closure(args[1], [o.fields[0]], depth),))
+    if isinstance(o, Adt) and o.variant == "None":
+        return o
+    raise Unknown("map over %r" % (o,))
+
+
+def _bool_then(ev, args, depth):
+    b = deref(args[0])
+    if isinstance(b, bool):
+        if b:
+            return Adt("std::option::Option", "Some", (ev.call_closure(args[1], [], depth),))
+        return Adt("std::option::Option", "None", ())
+    raise Unknown("then on %r" % (b,))
+
+
+def _bool_then_some(ev, args, depth):
+    b = deref(args[0])
+    if isinstance(b, bool):
+        return Adt("std::option::Option", "Some", (args[1],)) if b else Adt("std::option::Option", "None", ())
+    raise Unknown("then_some on %r" % (b,))
+
+
 STD_MODELS = {
+    "std::ops::Fn::call": _fn_call,
+    "std::ops::FnMut::call_mut": _fn_call,
+    "std::ops::FnOnce::call_once": _fn_call,
+    "std::iter::Iterator::filter_map": _it_filter_map,
+    "std::option::Option::<T>::map": _opt_map,
+    "core::bool::<impl bool>::then": _bool_then,
+    "core::bool::<impl bool>::then_some": _bool_then_some,
     "<std::num::Wrapping<u8> as std::ops::Sub>::sub": _wrapping_op("sub", "u8"),
     "<std::num::Wrapping<u8> as std::ops::Add>::add": _wrapping_op("add", "u8"),
     "<std::num::Wrapping<i32> as std::ops::Sub>::sub": _wrapping_op("sub", "i32"),
